@@ -26,6 +26,21 @@ inductive Exc
 
 abbrev Res := Except Exc
 
+/-- a class-body guard over the two import-time flags (the shapes the translator names; anything
+    else is `other`, which never holds — and fails the obligation) -/
+inductive Guard
+  | rollupOrSmaps | rollupAndSmaps | rollup | smaps | always | other
+  deriving DecidableEq, Repr
+
+def Guard.holds (g : Guard) (hasRollup hasSmaps : Bool) : Bool :=
+  match g with
+  | .rollupOrSmaps => hasRollup || hasSmaps
+  | .rollupAndSmaps => hasRollup && hasSmaps
+  | .rollup => hasRollup
+  | .smaps => hasSmaps
+  | .always => true
+  | .other => false
+
 /-- facts about the source the translator re-derives on every run (Generated/C13.lean) -/
 structure Cfg where
   /-- for every `pmem` field (in order), the column of `/proc/pid/statm` it is fed from -/
@@ -71,6 +86,24 @@ structure Cfg where
       — not by `hasattr` on the namedtuple class, for which `count`, `index`, `_fields`,
       `__len__`, … would pass -/
   pctByMembership : Bool
+  /-- `int(x) * PAGESIZE` in `memory_info`: `none` = the multiplier is the module global `PAGESIZE`;
+      `some k` = a literal `k` was written instead (the model follows: the figures are then wrong on
+      every machine whose page size is not `k`) -/
+  statmFixedScale : Option Nat
+  /-- `PAGESIZE = cext_posix.getpagesize()` (the page size is asked from the system, not written down) -/
+  pagesizeFromSystem : Bool
+  /-- which of the roll-up's errors `memory_full_info`'s `except (…)` clause catches -/
+  fallbackEnoent : Bool
+  fallbackEsrch : Bool
+  /-- is `basic_mem = self.memory_info()` evaluated BEFORE uss / pss / swap? (it is not: statm is
+      read last, so an error of the smaps side wins over an error of statm) -/
+  basicFirst : Bool
+  /-- the class-body guards: `if HAS_PROC_SMAPS_ROLLUP or HAS_PROC_SMAPS:` around
+      `_parse_smaps_rollup` / `_parse_smaps` / `memory_full_info` (`else: memory_full_info =
+      memory_info`) and `if HAS_PROC_SMAPS:` around `memory_maps` -/
+  fullGuard : Guard
+  fullElseIsInfo : Bool
+  mapsGuard : Guard
 
 /-! ### Python primitives not in Base -/
 
@@ -109,7 +142,8 @@ def memoryInfo (c : Cfg) (pagesize : Nat) (statm : Bytes) : Res (List Nat) :=
   match toks.mapM parseDec? with
   | none => .error .valueError
   | some vs =>
-    if vs.length = c.statmTake then .ok (c.statmOrder.map fun i => vs.getD i 0 * pagesize)
+    if vs.length = c.statmTake then
+      .ok (c.statmOrder.map fun i => vs.getD i 0 * c.statmFixedScale.getD pagesize)
     else .error .valueError
 
 /-! ### _parse_smaps_rollup -/
@@ -241,18 +275,43 @@ def memoryFullInfo (c : Cfg) (hasRollup : Bool) (pagesize : Nat)
     if hasRollup then
       match rollup with
       | .data b => parseSmapsRollup c b
-      | .enoent => parseSmaps c smaps
+      | .enoent =>
+        -- `except (ProcessLookupError, FileNotFoundError)`; uncaught, `@wrap_exceptions` re-raises it
+        -- (`/proc/pid/stat` exists)
+        if c.fallbackEnoent then parseSmaps c smaps else .error .fileNotFound
       | .esrch =>
-        -- `except (ProcessLookupError, FileNotFoundError)` catches it — unless a `@wrap_exceptions`
-        -- on the helper has already turned it into NoSuchProcess
-        if c.rollupWrapped then .error .noSuchProcess else parseSmaps c smaps
+        -- caught by the same clause — unless a `@wrap_exceptions` on the helper has already turned
+        -- it into NoSuchProcess (uncaught, the outer `@wrap_exceptions` does the same)
+        if c.rollupWrapped then .error .noSuchProcess
+        else if c.fallbackEsrch then parseSmaps c smaps else .error .noSuchProcess
     else parseSmaps c smaps
-  match ext with
-  | .error e => .error e
-  | .ok f =>
+  if c.basicFirst then
     match memoryInfo c pagesize statm with
     | .error e => .error e
-    | .ok basic => .ok (basic ++ [f.uss, f.pss, f.swap])
+    | .ok basic =>
+      match ext with
+      | .error e => .error e
+      | .ok f => .ok (basic ++ [f.uss, f.pss, f.swap])
+  else
+    match ext with
+    | .error e => .error e
+    | .ok f =>
+      match memoryInfo c pagesize statm with
+      | .error e => .error e
+      | .ok basic => .ok (basic ++ [f.uss, f.pss, f.swap])
+
+/-- the CLASS-level `memory_full_info` / `memory_maps`: the class body is evaluated once, at import,
+    with the two flags as they were then. Without `/proc/pid/smaps` AND without the roll-up
+    `memory_full_info` is an alias of `memory_info`; `memory_maps` exists only with smaps. -/
+def memoryFullInfoCls (c : Cfg) (importRollup importSmaps : Bool) (pagesize : Nat)
+    (rollup : FileRes) (smaps statm : Bytes) : Res (List Nat) :=
+  if c.fullGuard.holds importRollup importSmaps then
+    memoryFullInfo c importRollup pagesize rollup smaps statm
+  else if c.fullElseIsInfo then memoryInfo c pagesize statm
+  else .error .attributeError
+
+def memoryMapsDefined (c : Cfg) (importRollup importSmaps : Bool) : Bool :=
+  c.mapsGuard.holds importRollup importSmaps
 
 /-! ### memory_maps -/
 
@@ -291,8 +350,9 @@ def mkRow (c : Cfg) (probe : Bytes → Probe) (header : Bytes) (d : Dict) : Res 
   | [addr, perms, _, _, _] => .ok ⟨addr, perms, c.anonName, mkNums c d⟩
   | _ => .error .valueError
 
-/-- `get_blocks` interleaved with its consumer: `cur` is `current_block[0]`, `d` the dict that
-    is created once and never cleared. -/
+/-- `get_blocks` interleaved with its consumer: `cur` is `current_block[0]`, `d` the dict —
+    created once and never cleared when `c.dictPerBlock = false` (the code as it is), started
+    afresh at every header otherwise. -/
 def blocks (c : Cfg) (probe : Bytes → Probe) : List Bytes → Bytes → Dict → Res (List Row)
   | [], cur, d =>
     match mkRow c probe cur d with
